@@ -16,6 +16,8 @@ LEVEL_TEXT = (
     "lesser endpoint first, every such edge in some row, none in two (through the adjacency-list contract connection_list_to_adj_list, proved under C13; grids up to 127x127); EdgePermuters.BothCoords._permute lists the edges it is given followed by the same edges with their "
     "coordinates exchanged (`in both orientations`); EdgePermuters.RandomCoords._permute keeps every unit lattice edge in place in one of its two orientations, whatever Generator.permuted draws "
     "(it permutes the two row entries and the two column entries of a pair independently - harmless exactly because the two cells of a lattice edge agree in one coordinate: a precondition of the contract). "
+    "COORDINATES: CoordTokenizers.UT.to_tokens is the single token `(row,col)` in decimal, row first; CoordTokenizers.CTT.to_tokens is the row number then the column number as separate decimal tokens with exactly the delimiters "
+    "its three parameters ask for (all eight combinations). "
     "DECODABLE REGIONS: lemma regions_roundtrip - token_utils.get_adj_list_tokens / get_origin_tokens / get_target_tokens / get_path_tokens(trim_end=True) (real bodies) recover from a full AOTP sequence exactly "
     "the four region lists it was built from (non-empty adjacency, origin and target regions: tokens_between refuses an empty slice). "
     "The composition of the region tokenizers themselves (dynamic dispatch, coordinate tokens, the Distance vocabulary lookup) is outside the verified subset and is decided by the bounded stand-in, "
@@ -24,7 +26,7 @@ LEVEL_TEXT = (
 )
 LEVEL_NOTE = "Trusted: pyvc encoding; np.concatenate / np.expand_dims / np.column_stack / reshape / np.flip / np.append library models. The dynamic composition of tokenizer elements is outside the verified subset; the bounded decoder is the harness's own."
 TECHNIQUE = "bounded run-time checking of the real tokenizers against an independent decoder over enumerated element configurations and mazes + contracts on the direction / step-size / step-token leaves discharged by z3"
-CONTRACT_MODULES = ["contracts.lattice_maze", "contracts.token_utils", "contracts.steps", "contracts.sequencing", "contracts.adjlist"]
+CONTRACT_MODULES = ["contracts.lattice_maze", "contracts.token_utils", "contracts.steps", "contracts.sequencing", "contracts.adjlist", "contracts.coordtok"]
 TU = "maze_dataset/token_utils.py"
 MT = "maze_dataset/tokenization/maze_tokenizer.py"
 PROVE = [(TU, "get_cardinal_direction"), (TU, "get_relative_direction"), (MT, "StepTokenizers.Cardinal.to_tokens"), (MT, "StepTokenizers.Relative.to_tokens"),
@@ -33,7 +35,7 @@ PROVE = [(TU, "get_cardinal_direction"), (TU, "get_relative_direction"), (MT, "S
          ("/verif/contracts/lemmas_src.py", "prompt_layout"), ("/verif/contracts/lemmas_src.py", "prompt_layout_aop"),
          ("/verif/contracts/lemmas_src.py", "regions_roundtrip"),
          ("maze_dataset/token_utils.py", "connection_list_to_adj_list"), (MT, "EdgeSubsets.ConnectionEdges._get_edges"), (MT, "EdgePermuters.BothCoords._permute"), (MT, "EdgePermuters.RandomCoords._permute"),
-         ("maze_dataset/utils.py", "lattice_connection_array"), (MT, "EdgeSubsets.AllLatticeEdges._get_edges")]
+         (MT, "CoordTokenizers.UT.to_tokens"), (MT, "CoordTokenizers.CTT.to_tokens"), ("maze_dataset/utils.py", "lattice_connection_array"), (MT, "EdgeSubsets.AllLatticeEdges._get_edges")]
 ASSUMPTIONS = ["region token lists contain none of the eight region delimiters (coordinate, connector, direction and distance tokens are other vocabulary entries: checked by the bounded decoder, not proved)", "consecutive solution cells are lattice-adjacent (what SolvedMaze solutions are); start_index + 1 < len(solution)"]
 EXPLANATION = "see DESIGN.md C06"
 
